@@ -840,6 +840,11 @@ def f6_defs(tier):
         "a": T([N(S, "b", publish=[("v", RES)])]),
         "b": T([N(S, "c", publish=[("v", RES), ("u", "<% ctx(v) %>")])]),
         "c": T()})
+    # the last task has transitions but none of them fires on success (its record is the terminal one)
+    add("last-task-handler-only", {
+        "a": T([N(S, "b", publish=[("v", RES)])]),
+        "b": T([N(F, "h")]),
+        "h": T()})
     # three-way fan-in with tail
     add("fj3-tail", {
         "a": T([N(S, ["b", "c", "d"])]),
